@@ -11,6 +11,7 @@ mod oracle18;
 mod plan;
 mod rng;
 mod runner;
+mod selftest;
 mod tzif;
 mod worker;
 mod world;
@@ -110,6 +111,16 @@ fn main() {
                 _ => usage(),
             }
         }
+        Some("loghash") => {
+            let cfg = c18::Config::parse(&pos[1]).unwrap_or_else(|| usage());
+            selftest::loghash(cfg, pos[2].parse().unwrap_or(0), pos[3].parse().unwrap_or(0), pos[4].parse().unwrap_or(1))
+        }
+        Some("realtz") => selftest::realtz(&pos[1..]),
+        Some("selftest") => match pos.get(1).map(|s| s.as_str()) {
+            Some("determinism") => selftest::determinism(pos.get(2).and_then(|s| s.parse().ok()).unwrap_or(24)),
+            Some("stub-fidelity") => selftest::stub_fidelity(),
+            _ => usage(),
+        },
         Some("replay") => {
             let path = pos.get(1).cloned().unwrap_or_else(|| usage());
             let text = std::fs::read_to_string(&path).unwrap_or_else(|e| {
